@@ -1,12 +1,34 @@
 import Driver.Tok
-/- line-protocol handlers of this area; see docs/AGENT_GUIDE.md -/
+/- line-protocol handlers for the Timestamp / Duration arithmetic (C15) -/
 namespace Drv
+open Bp
 
 structure TimeDSt where
   dummy : Unit := ()
 
-def handleTimeD (st : TimeDSt) (_toks : List String) : Option (TimeDSt × String) :=
-  let _ := st
-  none
+def handleTimeD (st : TimeDSt) : List String → Option (TimeDSt × String)
+  | ["TSSPLIT", us] => (parseInt us).map fun us => (st, s!"{(tsSplit us).1} {(tsSplit us).2}")
+  | ["TSJOIN", s, n] => do
+    let s ← parseInt s
+    let n ← parseInt n
+    some (st, toString (tsJoin s n))
+  | ["DURSPLIT", us] => (parseInt us).map fun us => (st, s!"{(durSplit us).1} {(durSplit us).2}")
+  | ["DURJOIN", s, n] => do
+    let s ← parseInt s
+    let n ← parseInt n
+    some (st, toString (durJoin s n))
+  | ["TSFRAC", u] => (parseNat u).map fun u =>
+      (st, match tsFrac u with
+           | none => "-"
+           | some (nd, d) => s!"{nd} {d}")
+  | ["DURJSON", us] => (parseInt us).map fun us =>
+      let (neg, s, nd, d) := durJson us
+      (st, s!"{if neg then 1 else 0} {s} {nd} {d}")
+  | ["DURFROMJSON", neg, s, nd, d] => do
+    let s ← parseNat s
+    let nd ← parseNat nd
+    let d ← parseNat d
+    some (st, toString (durFromJson (neg == "1") s nd d))
+  | _ => none
 
 end Drv
